@@ -26,7 +26,7 @@ def run_flag_typestate(ctx: RuleContext, tag: str, only_attr_of=None, cg=None):
     results = []
     n_fn = 0
     for fl in sorted(flags, key=lambda f: f.name):
-        need(fl.setters and fl.clearers, f"flag {fl.name}: setter or clearer function not found (role lost)")
+        need(fl.setters or fl.mixed, f"flag {fl.name}: no function sets it (role lost)")
         fns = functions_touching(m, cg, fl)
         need(fns, f"flag {fl.name}: nobody outside _storage sets/clears it (anchor lost)")
         for fn in sorted(fns, key=lambda f: f.qualname):
@@ -78,6 +78,7 @@ def _culprit(res, ex, stt):
     fl = res.flow
     key = (ex.id, stt)
     setq = {f.name for f in res.flag.setters} | {f.name for f in res.flag.clearers}
+    # direct stores into the flag attribute count as well
     while key is not None:
         p = fl.pred.get(key)
         if p is None:
@@ -92,5 +93,7 @@ def _culprit(res, ex, stt):
                         prev_state = p[1]
                         if prev_state[0] != key[1][0]:
                             return n.ast
+            if isinstance(n.ast, ast.Assign) and p[1][0] != key[1][0]:
+                return n.ast
         key = (p[0], p[1])
     return res.fn.node
